@@ -515,6 +515,69 @@ func newSoft(typ jsonapi.Type) *jsonapi.SoftResource {
 	return &jsonapi.SoftResource{Type: &t}
 }
 
+// renamedType: typ with every field renamed (same definitions, same number of fields).
+func renamedType(typ jsonapi.Type, suffix string) jsonapi.Type {
+	t := jsonapi.Type{Name: typ.Name, Attrs: map[string]jsonapi.Attr{}, Rels: map[string]jsonapi.Rel{}}
+	for _, a := range typ.Attrs {
+		a.Name += suffix
+		t.Attrs[a.Name] = a
+	}
+	for _, rel := range typ.Rels {
+		rel.FromName += suffix
+		t.Rels[rel.FromName] = rel
+	}
+	return t
+}
+
+// newSoftVia creates an empty soft resource of the type the ways user code can: the struct
+// literal, Type.New() on a type value that descends (Copy, rename, one more field) from a
+// type which already created resources, or SetType on a resource that lived as another type
+// (as many fields under other names, all set) - whatever its past, it is now an empty
+// resource of typ.
+func newSoftVia(r *Rng, typ jsonapi.Type, o *Out) *jsonapi.SoftResource {
+	switch r.IntN(4) {
+	case 0:
+		o.stat("soft.via-type-new")
+		pre := typ.Copy()
+		pre.Name = "pre"
+		dropped := ""
+		if ks := sortedKeys(pre.Attrs); len(ks) > 0 {
+			dropped = ks[r.IntN(len(ks))]
+			delete(pre.Attrs, dropped)
+		}
+		_ = pre.New()
+		_ = pre.New()
+		t2 := pre.Copy()
+		if r.bool() {
+			t2 = pre
+			t2.Attrs = map[string]jsonapi.Attr{}
+			for k, a := range pre.Attrs {
+				t2.Attrs[k] = a
+			}
+		}
+		t2.Name = typ.Name
+		if dropped != "" {
+			t2.Attrs[dropped] = typ.Attrs[dropped]
+		}
+		if sr, ok := t2.New().(*jsonapi.SoftResource); ok {
+			return sr
+		}
+		return newSoft(typ)
+	case 1:
+		o.stat("soft.via-settype")
+		old := renamedType(typ, "~")
+		old.Name = "old"
+		sr := newSoft(old)
+		fill(sr, "old-id", genFieldVals(r, old))
+		t := typ.Copy()
+		sr.SetType(&t)
+		sr.SetID("")
+		return sr
+	default:
+		return newSoft(typ)
+	}
+}
+
 func newWrapped(typ jsonapi.Type) *jsonapi.Wrapper {
 	return jsonapi.Wrap(reflect.New(structTypeFor(typ)).Interface())
 }
